@@ -18,7 +18,7 @@ for d in dirs:
     r = subprocess.run(['git', '-C', WT, 'apply', os.path.join(d, 'patch.diff')], capture_output=True, text=True)
     if r.returncode:
         print('%-10s %s APPLY-FAILED %s' % (os.path.basename(d), prop, r.stderr.strip()[:100])); continue
-    env = dict(os.environ, VERIF_REPO=WT)
+    env = dict(os.environ, VERIF_REPO=WT, VERIF_EVIDENCE_DIR=os.path.join(os.environ.get('VERIF_SCRATCH', '/var/tmp'), 'evidence_eval'))
     also = meta.get('also_check', [])
     line = []
     for p in [prop] + also:
